@@ -33,11 +33,12 @@ var smlEnumVocab = []string{
 
 // contexts: where the words go
 var smlEnumCtx = map[string][2]string{
-	"top":  {"S1F1 W ", ""},          // behind a header: message end, next headers, stray words
-	"list": {"S1F1 W <L ", " > ."},   // children of a list
-	"item": {"S1F1 W <", "> ."},      // type word, size, values of one item
-	"head": {"", " <U1 5> ."},        // header words
-	"two":  {"S1F1 W <U1 x> . ", ""}, // behind a complete message
+	"top":  {"S1F1 W ", ""},           // behind a header: message end, next headers, stray words
+	"list": {"S1F1 W <L ", " > ."},    // children of a list
+	"item": {"S1F1 W <", "> ."},       // type word, size, values of one item
+	"head": {"", " <U1 5> ."},         // header words
+	"two":  {"S1F1 W <U1 x> . ", ""},  // behind a complete message
+	"open": {"S1F1 W <L <U1 x> ", ""}, // inside a list that the text never closes, behind an item with a variable
 }
 
 var smlEnumSmall = []string{"<", ">", "L", "A", "U1", "F4", "[2]", "5", "300", `"ab"`, "x", "...", "[1\n]"}
